@@ -8,5 +8,6 @@ CONSTANTS
   DevNoCopy = FALSE
   DevDirtyPool = FALSE
   DevSharedAbort = FALSE
+  DevSharedCtx = FALSE
 INVARIANTS TypeOK SharedImmutable Isolation Determinism CancelOnlyOwn PoolHygiene CancelStops Emit
 CHECK_DEADLOCK FALSE
